@@ -356,6 +356,9 @@ def run(ctx):
     _reset(ctx)
     _full_backward(ctx)
     _source_times(ctx, rule="R3.7")
+    from .c02 import reverse_is_inverse
+
+    reverse_is_inverse(ctx, "R3.8")
     ctx.require_count("C03", len(ctx.obligations), 25)
     ctx.trusted_base += [
         "model of a time-indexed buffer (arbitrary prior content, log of .at[i].set / .add writes, jnp.take reads)",
